@@ -309,23 +309,32 @@ def trigger_edit(rng, sim, proj):
     lib = next(s for s in proj.stmts('find') if s.var == 'lib_src')
     base = lib.facts['base']
     x = rng.random()
-    if x < 0.3:
+    if x < 0.25:
         return [['append', 'build.bfg', '# touched\n']], 'script_comment'
-    if x < 0.45:
+    if x < 0.38:
         return [['append', 'build.bfg',
                  "alias('later', [prog])\n"]], 'script_semantic'
-    if x < 0.75:
+    if x < 0.65:
         rel = '{}/added{}.c'.format(base, rng.randrange(100))
         return [['write', rel, G.c_source(rel)]], 'add_matching'
-    if x < 0.85:
+    if x < 0.75:
         cands = [f for f in files if f.startswith(base + '/') and
                  f.endswith('.c') and os.path.basename(f) != 'core.c']
         if cands:
             return [['remove', rng.choice(cands)]], 'remove_matching'
-    if x < 0.92 and proj.toolchain:
+    if x < 0.82 and proj.toolchain:
         return [['append', proj.toolchain,
                  "environ['CFLAGS'] = '-O3'\n"]], 'toolchain'
-    if x < 0.96:
+    if x < 0.94:
+        # below a recursive search if the project has one (then a file that
+        # appears in the new directory later is a new match)
+        rec = [s for s in proj.stmts('find')
+               if s.facts.get('pattern', '').startswith(
+                   s.facts.get('base', '') + '/**/') and
+               s.facts.get('kw', {}).get('cache') != 'False' and
+               os.path.isdir(sim.world.s(s.facts['base']))]
+        if rec:
+            base = rng.choice(rec).facts['base']
         return [['mkdir', '{}/fresh{}'.format(base, rng.randrange(100))]], \
             'mkdir'
     return [], 'none'
@@ -432,14 +441,15 @@ def run_case(seed, root, params=None):
         # directory the interrupted run was (or was not yet) told to watch
         post_edits = []
         if not script_mode and victim != 'first-configure' and \
-           rng.random() < 0.35:
+           rng.random() < (0.8 if label == 'mkdir' else 0.4):
             x = rng.random()
             e0 = edits[0] if edits else None
             if e0 and e0[0] == 'write' and label == 'add_matching' and \
                x < 0.5:
                 post_edits = [['remove', e0[1]]]
             elif e0 and e0[0] == 'mkdir' and x < 0.8:
-                rel = '{}/late{}.c'.format(e0[1], rng.randrange(100))
+                ext = rng.choice(['.c', '.c', '.h', '.md'])
+                rel = '{}/late{}{}'.format(e0[1], rng.randrange(100), ext)
                 post_edits = [['write', rel, G.c_source(rel)]]
             else:
                 lib0 = next(s_ for s_ in proj.stmts('find')
